@@ -344,7 +344,7 @@ def bfs(tier, nproc, acc):
     done = set(tuple(states[k_]) for k_ in states)
     seqs = [[i] for i in range(len(_OPS))]
     if tier == 'thorough':
-        core = [i for i, o in enumerate(_OPS) if o['name'] in ('tripeptide', 'cluster-display', 'other-cutoffs', 'shared-cfg-path-1', 'shared-cfg-path-2',
+        core = [i for i, o in enumerate(_OPS) if o['name'] in ('tripeptide', 'cluster-display', 'other-cutoffs', 'other-coupling-thresholds', 'shared-cfg-path-1', 'shared-cfg-path-2',
                                                                'zip-member-1', 'zip-member-2', 'tune-returned-parameters', 'main-two-files', 'ligand-LIG-amide')]
         seqs += [[i, j] for i in core for j in core]
     jobs = [(h, i, tier) for h in seqs for i in range(len(_OPS) if len(h) == 1 else 0)] + \
